@@ -61,7 +61,7 @@ impl Monitor for C17 {
 		"C17"
 	}
 	fn rule(&self) -> String {
-		"well-formed replays (all layouts, random histories with absences/rollbacks/items/gecko) are made irregular by every combination of: unknown events (declared in the table) at random boundaries incl. inside frames; junk bytes after Game End inside the raw element (not a duplicate end); a random permutation of each frame's Pre/Post/Item events that keeps Frame Start first, Frame End last and each character's Pre before its Post; Game End removed; metadata removed. For every such file the reader accepts: w = write(read(y)) must (1) be parsed by the independent reference model with declared raw length == actual raw element length, (2) be readable, with start/end/metadata/gecko/every column/validity/item offsets equal to those of read(y), (3) satisfy write(read(w)) == w byte for byte. One evaluation = one irregular file. distinct = irregularity combination x regime classes.".into()
+		"well-formed replays (all layouts, random histories with absences/rollbacks/items/gecko) are made irregular by every combination of: unknown events (declared in the table) at random boundaries incl. inside frames; junk bytes after Game End inside the raw element (not a duplicate end); a random permutation of each frame's Pre/Post/Item events that keeps Frame Start first, Frame End last and each character's Pre before its Post; Game End removed; metadata removed. For every such file the reader accepts: the hash (when requested) is the XXH3-64 of exactly the consumed bytes, and w = write(read(y)) must (1) be parsed by the independent reference model with declared raw length == actual raw element length, (2) be readable, with start/end/metadata/gecko/every column/validity/item offsets equal to those of read(y), (3) satisfy write(read(w)) == w byte for byte. One evaluation = one irregular file. distinct = irregularity combination x regime classes.".into()
 	}
 	fn n_cases(&self, ctx: &Ctx) -> usize {
 		ctx.tier.pick(16000, 400000)
@@ -147,6 +147,17 @@ impl Monitor for C17 {
 				return out;
 			}
 		};
+		// (0) the hash of an accepted irregular file is still the digest of exactly the bytes consumed
+		{
+			let src = crate::iofault::Src::of(&y);
+			let stats = src.stats();
+			if let Ok(gh) = common::slp_read_src(src, false, true) {
+				let want = format!("xxh3:{:016x}", xxhash_rust::xxh3::xxh3_64(&y[..stats.bytes().min(y.len())]));
+				if gh.hash.as_deref() != Some(&want[..]) {
+					out.violate("hash-of-irregular-file", format!("{}: hash {:?}, digest of the {} consumed bytes is {}", desc, gh.hash, stats.bytes(), want), Some(&y));
+				}
+			}
+		}
 		let c1 = view::cols_imm(&g.frames);
 		let w = match common::slp_write(&g) {
 			Ok(w) => w,
